@@ -501,8 +501,10 @@ def main():
                         w = witness.gen_conc_store(pid, fake) or (witness.gen_steps_lin(pid, fake) if pid == 'C03' else None)
                     if w is None and pid in ('C09', 'C10', 'C12', 'C13', 'C18'):
                         w = witness.gen_framing(pid, fake) or witness.gen_sock(pid, fake)
-                    if w is None and pid in ('C18', 'C12'):
+                    if w is None and pid in ('C18', 'C12', 'C09'):
                         w = witness.gen_sock_faults(pid, fake)
+                    if w is None and pid in ('C11', 'C12'):
+                        w = witness.gen_sock_correlation(pid, fake)
                     if w is None and pid in ('C15', 'C14'):
                         w = witness.gen_policy(pid, fake)
                     if w is None and pid in ('C16',):
@@ -561,6 +563,16 @@ def main():
                 if w: undecided.append('step-level schedule grid: %s (although every obligation is discharged or known)' % w['what'])
             except Exception as e:
                 thorough['step_level_schedules_error'] = repr(e)
+        if pid == 'C11':
+            try:
+                import replaytool, witness
+                ok, err = replaytool.build_replay_bin()
+                if ok:
+                    w = witness.gen_sock_correlation(pid, {'full': 'server/conn'})
+                    thorough['socket_correlation'] = {'bounded': 'three valid requests followed by a request malformed in one of six ways, in one segment / in its own segment; oracle independent of the code: whole response frames, each correlated with a request sent, in order', 'scenarios': witness.gen_sock_correlation.last_count, 'mismatch': (w or {}).get('what')}
+                    if w: undecided.append('socket correlation twin disagrees with the real server although every obligation is discharged: %s' % w['what'][:300])
+            except Exception as e:
+                thorough['socket_correlation_error'] = repr(e)
         if pid == 'C18':
             try:
                 import replaytool, witness
